@@ -437,6 +437,8 @@ type Contract struct {
 	Trusted    bool
 	NoSafety   bool // do not generate run-time panic obligations (used for sweeps that are not claimed)
 	MayPanic   bool
+	Recovers   bool      // a deferred function of this function recovers panics of its callees (checked at every call that may panic)
+	OnPanic    []*Clause // what holds when a callee panicked and the deferred functions have run
 	Impl       []string // functype / iface contracts this function must also satisfy
 	Loops      map[int]*LoopSpec
 	Ghost      []string
@@ -497,7 +499,7 @@ func NewSpecs() *Specs {
 	return &Specs{Contracts: map[string]*Contract{}, Funs: map[string]*SpecFun{}, Ghosts: map[string]*GhostFun{}}
 }
 
-var keywordRe = regexp.MustCompile(`^(func|iface|functype|spec|ufun|hfun|haxiom|hlemma|axiom|lemma|ghost|property|trusted|pure|implements|requires|ensures|modifies|loop|invariant|decreases|end|may_panic|nosafety|assume|alloc|hint|posthint|replay|check|split|ghostset|atcall|assumepre|slicewf|absidx|tier)\b`)
+var keywordRe = regexp.MustCompile(`^(func|iface|functype|spec|ufun|hfun|haxiom|hlemma|axiom|lemma|ghost|property|trusted|pure|implements|requires|ensures|modifies|loop|invariant|decreases|end|may_panic|nosafety|assume|alloc|hint|posthint|replay|check|split|ghostset|atcall|assumepre|slicewf|recovers|onpanic|absidx|tier)\b`)
 var labelRe = regexp.MustCompile(`^([A-Za-z_][A-Za-z0-9_.]*)\s*:([^:]|$)`)
 var propTagRe = regexp.MustCompile(`^\[([A-Za-z0-9 ,]+)\]\s*`)
 var headRe = regexp.MustCompile(`^(\S.*?)\(([^)]*)\)\s*(?:\(([^)]*)\))?\s*$`)
@@ -649,6 +651,17 @@ func (sp *Specs) ParseSpecFile(path string, pkg string) error {
 			cur.HasMod = true
 		case "may_panic":
 			cur.MayPanic = true
+		case "recovers":
+			cur.Recovers = true
+		case "onpanic":
+			c, err := mkClause(l, rest)
+			if err != nil {
+				return err
+			}
+			if c.Label == "" {
+				c.Label = fmt.Sprintf("p%d", len(cur.OnPanic))
+			}
+			cur.OnPanic = append(cur.OnPanic, c)
 		case "nosafety":
 			cur.NoSafety = true
 		case "implements":
